@@ -206,6 +206,9 @@ def cases(tier, seed):
         for write in range(1, 19):
             for lat, refuse in ((0.0, False), (0.5, False), (1.5, False), (0.0, True)):
                 yield {"k": "hs", "gen": gen, "write": write, "lat": lat, "refuse": refuse}
+                if lat in (0.0, 1.5):
+                    yield {"k": "hs", "gen": gen, "write": write, "lat": lat, "refuse": refuse,
+                           "zones0": True}
 
 
 # ------------------------------------------------------------ socket-level oracle
